@@ -60,12 +60,51 @@ class Check:
     def function(self, name):
         self.analysed['functions'].add(name)
 
+    def _reshaped_anchors(self):
+        """A rule that reads a confirmed function by its parameters (argument positions, names) says nothing reliable about a
+        function whose parameter list is no longer the confirmed one (a parameter added, removed or retyped: an adaptor
+        that got a mode flag, a helper that lost an argument).  A violation keyed at such a function is not a verdict on
+        the behaviour: it becomes ANALYSIS-BROKEN, naming the changed signature.  (Functions the table does not know are
+        new helpers and are looked through anyway.)"""
+        try:
+            from . import cast as _cast
+            table = json.load(open(os.path.join(os.path.dirname(os.path.abspath(__file__)), 'known_functions.json'))).get('names', {})
+        except Exception:      # noqa: BLE001
+            return
+        import re as _re
+        current = {}
+        for u in list(_cast._cache.values()):
+            for fn in u.functions:
+                if fn in table and fn not in current:
+                    try:
+                        current[fn] = [_cast.qual_type(q).replace('const ', '').strip() for q in u.params(fn)]
+                    except Exception:      # noqa: BLE001
+                        pass
+        reshaped = {}
+        for fn, cur in current.items():
+            alts = [[t.replace('const ', '').strip() for _n, t in a.get('params', [])] for a in table.get(fn, [])]
+            if alts and cur not in alts and all(len(a) != len(cur) for a in alts):
+                reshaped[fn] = (alts[0], cur)
+        if not reshaped:
+            return
+        for r in self.results:
+            if r['verdict'] != VIOLATION:
+                continue
+            words = set(_re.findall(r'[A-Za-z_][A-Za-z0-9_]*', str(r.get('key', '')) + ' ' + str(r.get('detail', ''))))
+            hit = sorted(words & set(reshaped))
+            if hit:
+                fn = hit[0]
+                r['verdict'] = BROKEN
+                r['detail'] = ('the parameter list of %s is no longer the one the rule was confirmed on (%d parameters then, %d now): the rule reads the function by its '
+                               'arguments and does not judge the new form.  [what it would have said: %s]' % (fn, len(reshaped[fn][0]), len(reshaped[fn][1]), str(r.get('detail', ''))[:300]))
+
     # -- finishing -----------------------------------------------------------
     def finish(self):
         known = []
         if os.path.exists(KNOWN):
             known = json.load(open(KNOWN)).get('findings', [])
         knownkeys = {(k['property'], k['key']): k for k in known if k.get('status') == 'known'}
+        self._reshaped_anchors()
         viol = [r for r in self.results if r['verdict'] == VIOLATION]
         brok = [r for r in self.results if r['verdict'] == BROKEN]
         held = [r for r in self.results if r['verdict'] == HOLDS]
